@@ -209,7 +209,7 @@ impl Check for C14 {
             // the paths come from the *unmutated* document and are passed along as a seed
             emit(Case::with("every-prefix-and-subst", d, &[r.next() as i64]));
         }
-        let n = g.count(30_000, 1_000_000);
+        let n = g.count(60_000, 4_000_000);
         for _ in 0..n {
             let o = DocOpts::random(&mut r);
             let d = doc::gen_doc(&mut r, &o);
